@@ -344,6 +344,27 @@ def _const_text(kind, val):
 HEADER_RE = re.compile(r'^(?P<name>[A-Za-z_][A-Za-z_0-9]*)\s*(?:\[(?P<p1>[^\]]*)\]|\((?P<p2>[^)]*)\)|::(?P<p3>[\w:, ]+?))?\s*(?:<\s*(?P<base>\w+)\s*)?(?P<sep>::=|:=|:|=)', re.S)
 
 
+def _param_value(t: str):
+    """value of a rule parameter as the grammar language reads it (`literal`): a quoted string is a str, True/False/None the
+    constants, a number an int/float, a bare word or a::b path a str"""
+    if re.fullmatch(r"r?(?:'(?:[^'\\\n]|\\.)*'|\"(?:[^\"\\\n]|\\.)*\")", t):
+        try:
+            return ast.literal_eval(t)
+        except (SyntaxError, ValueError):
+            return t
+    if t in ('True', 'False'):
+        return t == 'True'
+    if t == 'None':
+        return None
+    if re.fullmatch(r'0[xX][0-9a-fA-F]+', t):
+        return int(t, 16)
+    if re.fullmatch(r'[-+]?\d+', t):
+        return int(t)
+    if re.fullmatch(r'[-+]?(?:\d+\.\d*|\d*\.\d+)(?:[Ee][-+]?\d+)?', t):
+        return float(t)
+    return t
+
+
 def parse_ebnf(text: str) -> GrammarIR:
     g = GrammarIR()
     lines = text.splitlines()
@@ -394,8 +415,8 @@ def parse_ebnf(text: str) -> GrammarIR:
         if not m:
             raise FrontEndError(f'line {ln}: cannot read rule header from {body[:50]!r}')
         ptxt = m.group('p1') or m.group('p2') or m.group('p3') or ''
-        params = tuple(p.strip() for p in ptxt.split(',') if p.strip() and '=' not in p)
-        kwparams = tuple(tuple(x.strip() for x in p.split('=', 1)) for p in ptxt.split(',') if '=' in p)
+        params = tuple(_param_value(p.strip()) for p in ptxt.split(',') if p.strip() and '=' not in p)
+        kwparams = tuple((p.split('=', 1)[0].strip(), _param_value(p.split('=', 1)[1].strip())) for p in ptxt.split(',') if '=' in p)
         rest = body.lstrip()[m.end():]
         names.add(m.group('name'))
         parsed.append((m.group('name'), params, kwparams, tuple(decorators), m.group('base'), rest, ln))
